@@ -148,28 +148,65 @@ func (e *Engine) Solve(obls []*Obligation, cfg SolveCfg) {
 				if j.o.Cover && c1.TimeoutS > 4 {
 					c1.TimeoutS = 4 // vacuity guards only need to fail to be refuted quickly
 				}
-				r := solveOne(j.qf, c1)
-				r.Phase = "qf-inst"
-				if j.o.Cover {
+				if j.o.Cover || j.full == "" {
+					r := solveOne(j.qf, c1)
+					r.Phase = "qf-inst"
 					j.o.Result = r
 					continue
 				}
-				if r.Status != "unsat" && j.full != "" {
-					r2 := solveOne(j.full, cfg)
-					r2.Phase = "quantified"
-					r2.Seconds += r.Seconds
-					if r2.Status == "unsat" || r2.Status == "sat" {
-						r = r2
-					} else if r.Status == "sat" {
-						// counter-model of the weakened (instantiated) problem only: not a verdict
-						r2.Model = r.Model
-						r2.Status = "unknown"
-						r2.Output = "qf-instantiated problem is sat; quantified problem undecided: " + r2.Output
-						r = r2
-					} else {
-						r = r2
+				// the instantiated (quantifier-free) query first; if it is still running after a while the full
+				// quantified query is started beside it, and the first refutation wins
+				type pr struct {
+					r     *SolveResult
+					phase string
+				}
+				ch2 := make(chan pr, 2)
+				t0 := time.Now()
+				jctx, jcancel := context.WithCancel(context.Background())
+				go func() { ch2 <- pr{solveOneCtx(jctx, j.qf, c1), "qf-inst"} }()
+				var qfRes, fullRes *SolveResult
+				fullStarted := false
+				startFull := func() {
+					if !fullStarted {
+						fullStarted = true
+						go func() { ch2 <- pr{solveOneCtx(jctx, j.full, cfg), "quantified"} }()
 					}
 				}
+				delay := time.After(time.Duration(cfg.TimeoutS) * time.Second / 4)
+				var r *SolveResult
+				for r == nil {
+					select {
+					case <-delay:
+						startFull()
+					case p := <-ch2:
+						p.r.Phase = p.phase
+						if p.phase == "qf-inst" {
+							qfRes = p.r
+							if qfRes.Status == "unsat" {
+								r = qfRes
+								break
+							}
+							startFull()
+						} else {
+							fullRes = p.r
+							if fullRes.Status == "unsat" || fullRes.Status == "sat" {
+								r = fullRes
+								break
+							}
+						}
+						if qfRes != nil && fullRes != nil {
+							r = fullRes
+							if qfRes.Status == "sat" {
+								// counter-model of the weakened (instantiated) problem only: not a verdict
+								r.Model = qfRes.Model
+								r.Status = "unknown"
+								r.Output = "qf-instantiated problem is sat; quantified problem undecided: " + r.Output
+							}
+						}
+					}
+				}
+				jcancel()
+				r.Seconds = time.Since(t0).Seconds()
 				j.o.Result = r
 			}
 		}()
@@ -182,7 +219,11 @@ func (e *Engine) Solve(obls []*Obligation, cfg SolveCfg) {
 }
 
 func solveOne(file string, cfg SolveCfg) *SolveResult {
-	ctx, cancel := context.WithCancel(context.Background())
+	return solveOneCtx(context.Background(), file, cfg)
+}
+
+func solveOneCtx(parent context.Context, file string, cfg SolveCfg) *SolveResult {
+	ctx, cancel := context.WithCancel(parent)
 	defer cancel()
 	type ans struct {
 		solver, status, out string
